@@ -55,7 +55,12 @@ template <typename Assertion>
 
 namespace {
 constexpr long MAXTOK = 1000000;
-size_t sz(long a) { return a == MAXTOK ? static_cast<size_t>(-1) : static_cast<size_t>(a); }
+size_t sz(long a)
+{
+    if (a == MAXTOK) { return static_cast<size_t>(-1); }
+    if (a == MAXTOK - 1) { return static_cast<size_t>(-2); } // "max - 1": wraps naive "offset + count" checks
+    return static_cast<size_t>(a);
+}
 volatile long sink = 0; // results are consumed so that the calls are not optimised away
 
 template <typename C>
@@ -102,7 +107,7 @@ bool run_str(std::string const& site, long n, long a, long b, json& pre)
     else if (site == "str.resize") { s.resize(sz(a)); }
     else if (site == "str.resize_fill") { s.resize(sz(a), 'x'); }
     else if (site == "str.erase_range") {
-        if (a == MAXTOK || b == MAXTOK) { return false; } // iterators SIZE_MAX beyond begin() cannot be formed meaningfully
+        if (a >= MAXTOK - 1 || b >= MAXTOK - 1) { return false; } // iterators SIZE_MAX beyond begin() cannot be formed meaningfully
         s.erase(s.cbegin() + a, s.cbegin() + b);
     }
     else if (site == "str.replace_pos") { s.replace(sz(a), sz(b), "x"); }
@@ -258,20 +263,20 @@ bool run_misc(std::string const& site, long /*n*/, long a, long /*b*/, json& pre
 {
     pre           = json::array();
     vhc::snapshot = [] { return json::array(); };
-    if (site == "num.div_sat") { sink = etl::div_sat<int>(100, a == MAXTOK ? 2147483647 : (int)a); }
-    else if (site == "bit.set_bit") { sink = etl::set_bit<unsigned char>(1, a == MAXTOK ? 255 : (unsigned char)a); }
-    else if (site == "bit.set_bit_val") { sink = etl::set_bit<unsigned char>(1, a == MAXTOK ? 255 : (unsigned char)a, true); }
-    else if (site == "bit.reset_bit") { sink = etl::reset_bit<unsigned char>(1, a == MAXTOK ? 255 : (unsigned char)a); }
-    else if (site == "bit.flip_bit") { sink = etl::flip_bit<unsigned char>(1, a == MAXTOK ? 255 : (unsigned char)a); }
-    else if (site == "bit.test_bit") { sink = etl::test_bit<unsigned char>(1, a == MAXTOK ? 255 : (unsigned char)a); }
-    else if (site == "chrono.day") { sink = (long)(unsigned)etl::chrono::day(a == MAXTOK ? 4294967295u : (unsigned)a); }
-    else if (site == "chrono.month") { sink = (long)(unsigned)etl::chrono::month(a == MAXTOK ? 4294967295u : (unsigned)a); }
+    if (site == "num.div_sat") { sink = etl::div_sat<int>(100, a >= MAXTOK - 1 ? (int)(2147483647 - (MAXTOK - a)) : (int)a); }
+    else if (site == "bit.set_bit") { sink = etl::set_bit<unsigned char>(1, a >= MAXTOK - 1 ? (unsigned char)(255 - (MAXTOK - a)) : (unsigned char)a); }
+    else if (site == "bit.set_bit_val") { sink = etl::set_bit<unsigned char>(1, a >= MAXTOK - 1 ? (unsigned char)(255 - (MAXTOK - a)) : (unsigned char)a, true); }
+    else if (site == "bit.reset_bit") { sink = etl::reset_bit<unsigned char>(1, a >= MAXTOK - 1 ? (unsigned char)(255 - (MAXTOK - a)) : (unsigned char)a); }
+    else if (site == "bit.flip_bit") { sink = etl::flip_bit<unsigned char>(1, a >= MAXTOK - 1 ? (unsigned char)(255 - (MAXTOK - a)) : (unsigned char)a); }
+    else if (site == "bit.test_bit") { sink = etl::test_bit<unsigned char>(1, a >= MAXTOK - 1 ? (unsigned char)(255 - (MAXTOK - a)) : (unsigned char)a); }
+    else if (site == "chrono.day") { sink = (long)(unsigned)etl::chrono::day(a >= MAXTOK - 1 ? (unsigned)(4294967295u - (unsigned)(MAXTOK - a)) : (unsigned)a); }
+    else if (site == "chrono.month") { sink = (long)(unsigned)etl::chrono::month(a >= MAXTOK - 1 ? (unsigned)(4294967295u - (unsigned)(MAXTOK - a)) : (unsigned)a); }
     else if (site == "md.left_stride") {
         etl::layout_left::mapping<etl::extents<int, 2, 3>> m;
-        sink = m.stride(a == MAXTOK ? static_cast<size_t>(-1) : (size_t)a);
+        sink = m.stride(sz(a));
     } else if (site == "md.right_stride") {
         etl::layout_right::mapping<etl::extents<int, 2, 3>> m;
-        sink = m.stride(a == MAXTOK ? static_cast<size_t>(-1) : (size_t)a);
+        sink = m.stride(sz(a));
     } else { return false; }
     return true;
 }
